@@ -397,7 +397,7 @@
 	}
 	/// a multi-line comment with a leading space, a blank line, `#` characters and a trailing space
 	const C_MULTI: &str = " lead\n\n#hash # x\ntrail ";
-	/// a class with everything: multi-line comment, 4 fields (two of one name, one with non-ASCII names), 4 methods (overloads, `<init>`, `<clinit>`), 3 parameters
+	/// a class with everything: multi-line comment, 4 fields (two of one name, one with non-ASCII names), 5 methods (overloads, `<init>`, `<clinit>`, one with parameter indices at the u8 / u16 / u32 / usize boundaries), 9 parameters
 	fn rich() -> MClass {
 		let mut c = bare();
 		c.comment = so(Some(C_MULTI));
@@ -409,6 +409,9 @@
 		mth(&mut c, "m", "(I)V", None, None, &[(0, "x", None)]);
 		mth(&mut c, INIT, "(LA;I)V", Some(INIT), Some("ctor"), &[(2, "b", None), (1, "a", Some(" p1\n\n#p3 "))]);
 		mth(&mut c, "<clinit>", "()V", Some("<clinit>"), None, &[]);
+		// parameter indices are `usize` in the mapping set and decimal text in the format: the byte / short / u32 boundaries and the largest
+		// index must come back as they went out (added after seed C12-e: `ARG` index parsed as u8)
+		mth(&mut c, "w", "(J)V", Some("w2"), None, &[(255, "p255", None), (256, "p256", Some("c256")), (65535, "p65535", None), (65536, "p65536", None), (4294967296, "p2e32", None), (usize::MAX, "pmax", Some("last"))]);
 		c
 	}
 	/// the target-side prefix of the classes nested in `outer`: the target name of `outer`, its source name where it has
